@@ -65,8 +65,17 @@ func (s *c17Other) Remove(_ context.Context, r *OtherReq) (*ItemResp, error) {
 	return &ItemResp{Id: r.Name}, nil
 }
 
+func (s *c17Other) AddZone(_ context.Context, r *ZoneReq) (*ItemResp, error) {
+	s.calls, s.lastVia, s.lastSeen = s.calls+1, "AddZone", "org="+r.Org+" zone="+r.ZoneId
+	return &ItemResp{Id: r.Org}, nil
+}
+func (s *c17Other) SetZone(_ context.Context, r *ZoneReq) (*ItemResp, error) {
+	s.calls, s.lastVia, s.lastSeen = s.calls+1, "SetZone", "org="+r.Org+" zone="+r.ZoneId
+	return &ItemResp{Id: r.Org}, nil
+}
+
 type c17Spec struct {
-	route                         int // 0 GET item, 1 PUT item, 2 POST other/create, 3 DELETE other/remove
+	route                         int // 0 GET item, 1 PUT item, 2 POST other/create, 3 DELETE other/remove, 4 POST orgs/o/zones, 5 PUT orgs/o/zones/{id}
 	id                            string
 	apiKey, requestID, count, ten int // 0 absent, 1 valid, 2 malformed
 	query, body                   int // URL parameters / body contents: see c17Build
@@ -81,7 +90,7 @@ func c17SymSpec(p string) c17Spec {
 	}
 	// the earlier request (A): every route, URL parameter and body variant, valid headers;
 	// the later request (B): additionally every header absent/valid (thorough: malformed)
-	sp := c17Spec{route: verif.Choice(p+".route", 4), id: "a", apiKey: 1, requestID: 1, count: 1, ten: 1,
+	sp := c17Spec{route: verif.Choice(p+".route", 6), id: "a", apiKey: 1, requestID: 1, count: 1, ten: 1,
 		query: verif.Choice(p+".query", 3), body: verif.Choice(p+".body", 3)}
 	if p == "B" {
 		sp.id = []string{"a", "bb"}[verif.Choice(p+".id", 2)]
@@ -130,8 +139,14 @@ func c17Build(s c17Spec) *http.Request {
 		case 2:
 			r.Body = verif.Body(verif.JObj("name", verif.JStr("bob")))
 		}
-	default:
+	case 3:
 		r.Method, r.URL.Path = "DELETE", "/other/remove/"+s.id
+		verif.SetQuery(r, url.Values{})
+	case 4:
+		r.Method, r.URL.Path = "POST", "/other/orgs/acme/zones"
+		verif.SetQuery(r, url.Values{})
+	default:
+		r.Method, r.URL.Path = "PUT", "/other/orgs/acme/zones/"+s.id
 		verif.SetQuery(r, url.Values{})
 	}
 	return r
@@ -189,5 +204,20 @@ func VerifC17ServerHistory() {
 	verif.Show("after.seen", after.seen)
 	verif.Assert("C17/server/same-request-seen", after.id == alone.id && after.seen == alone.seen)
 	verif.Assert("C17/server/same-violations", after.violations == alone.violations)
+	// state that outlives a server (package-level caches) is shared by both runs above: the
+	// later request is therefore also compared with what the request itself says
+	if after.status == 200 {
+		switch b.route {
+		case 0, 1:
+			verif.Assert("C17/server/later-request-delivers-its-own-path-value", after.id == b.id)
+		case 3:
+			verif.Assert("C17/server/later-request-delivers-its-own-path-value", after.seen == "name="+b.id)
+		case 4:
+			verif.Assert("C17/server/later-request-delivers-its-own-path-value", after.seen == "org=acme zone=")
+		case 5:
+			verif.Assert("C17/server/later-request-delivers-its-own-path-value", after.seen == "org=acme zone="+b.id)
+		}
+		verif.Reach("C17/server/dispatched")
+	}
 	verif.Reach("C17/server/decided")
 }
